@@ -32,8 +32,10 @@ func init() {
 		Rule: "30 unique corpus blocks submitted in order by one submitter; fault = f in 1..3 consecutive Submit calls starting at position k whose context is cancelled while the call is blocked on the full input channel " +
 			"(pipeline filled to capacity behind a gate: ApplyFunc waiting for a permit, PrefetchBufferSize 1..2, 1..2 decode workers; for k below that capacity the decode workers are gated instead, and for k < 2 the context is cancelled before the call); " +
 			"quick: every 3rd k x f=1..3, thorough: every k x f x both buffer sizes; plus fault-free control cases; " +
+			"concurrent family: pipeline full behind the gated ApplyFunc, m in 2..4 goroutines enter Submit one after the other, each observed parked in Submit (goroutine dump) before the next starts, " +
+			"then the context of the caller at every entry position (1st / middle / last, and pairs in both orders) is cancelled, the gate opens, the others must return nil and the rest of the sequence is submitted; " +
 			"a case is non-trivial when at least one Submit really returned an error and at least one later Submit of a good block returned nil (the last block is always good); distinct by (k, f, gate, buffer, workers)",
-		MinNontrivial: 15,
+		MinNontrivial: 30,
 		RaceAnchors:   []string{"pipeline.(*ApplyStage)", "pipeline.(*BlockPipeline)", "pipeline.(*StageWorkerPool)", "pipeline.(*ApplyStageRunner)"},
 		Assumptions: []string{
 			"bounded progress: a case is a violation only when the apply counter is frozen, every goroutine started by the pipeline is parked on a channel operation in consecutive world-stopped dumps with no event in between, and accepted blocks are still unapplied (PendingCount() and the missing results are recorded); a watchdog expiry is inconclusive",
@@ -55,6 +57,8 @@ type fcase struct {
 	Buf     int    `json:"buffer"`
 	DecodeW int    `json:"decode_workers"`
 	BadIDs  []int  `json:"corrupted_ids"`
+	Conc    int    `json:"concurrent_submitters,omitempty"` // >0: concurrent family, this many goroutines blocked in Submit
+	Victims []int  `json:"cancelled_positions,omitempty"`   // entry positions (0 = first to enter Submit) whose context is cancelled
 
 	blk   []pipex.Blk
 	class []pipex.Class
@@ -84,7 +88,26 @@ type outcome struct {
 	dump          []string
 	stopOK        bool
 	fillProblem   string
+	concParked    int // concurrent family: goroutines observed parked in Submit before the cancellations
 	blockedSubmit int // id of a background-context Submit found stuck with the gate open (-1 none)
+}
+
+// submitParked counts goroutines parked in a select inside Submit (on the full
+// input channel, or on the way to it).
+func submitParked() int {
+	k := 0
+	for _, g := range pipex.Goroutines() {
+		if g.State != "select" {
+			continue
+		}
+		for _, fn := range g.Funcs {
+			if strings.HasSuffix(fn, "pipeline.(*BlockPipeline).Submit") {
+				k++
+				break
+			}
+		}
+	}
+	return k
 }
 
 func submitBlocked() bool {
@@ -103,11 +126,14 @@ func submitBlocked() bool {
 
 func execute(fc *fcase) *outcome {
 	out := &outcome{planned: fc.F, blockedSubmit: -1}
+	if fc.Conc > 0 {
+		out.planned = len(fc.Victims)
+	}
 	log := pipex.NewLog()
 	n := seqLen
 	// ids from gateID on wait at the gate (inside ApplyFunc, or in the decode worker) until it opens
 	gateID := n + 1
-	if fc.F > 0 && (fc.Gate == "apply" || fc.Gate == "decode") {
+	if (fc.F > 0 || fc.Conc > 0) && (fc.Gate == "apply" || fc.Gate == "decode") {
 		gateID = fc.K - fc.capacity()
 	}
 	gate := pipex.NewHold()
@@ -286,7 +312,104 @@ func execute(fc *fcase) *outcome {
 			break
 		}
 	}
-	if fc.F > 0 && out.fillProblem == "" {
+	if fc.Conc > 0 && out.fillProblem == "" {
+		// Concurrent family: the pipeline is full behind the gate; Conc goroutines enter
+		// Submit one after the other, each observed parked in Submit before the next
+		// starts (so position j is the j-th to have entered); then the contexts of the
+		// victims are cancelled, the gate opens and the others must complete.
+		type csub struct {
+			id     int
+			cancel context.CancelFunc
+			done   chan error
+			got    bool
+			err    error
+		}
+		poll := func(cond func() bool) bool {
+			deadline := time.Now().Add(10 * time.Second)
+			for !cond() {
+				if time.Now().After(deadline) {
+					return false
+				}
+				time.Sleep(200 * time.Microsecond)
+			}
+			return true
+		}
+		if !pipex.Settle(log, 4, 10*time.Second) {
+			out.fillProblem = "pipeline did not come to rest behind the gate"
+		}
+		var subs []*csub
+		for j := 0; j < fc.Conc && out.fillProblem == ""; j++ {
+			b := fc.blk[id]
+			ctx, cancel := context.WithCancel(context.Background())
+			cs := &csub{id: id, cancel: cancel, done: make(chan error, 1)}
+			subs = append(subs, cs)
+			log.Add(pipex.SubmitCall, id, 0, -1, nil)
+			go func(sid int) { cs.done <- p.Submit(ctx, b.Type, b.Cbor, pipex.Tip(fc.Idx, sid)) }(id)
+			id++
+			want := len(subs)
+			if !poll(func() bool { return len(cs.done) > 0 || submitParked() >= want }) || len(cs.done) > 0 {
+				out.fillProblem = fmt.Sprintf("concurrent Submit %d did not park on the full pipeline", j)
+			}
+		}
+		out.concParked = submitParked()
+		collect := func(cs *csub) {
+			cs.err, cs.got = <-cs.done, true
+			log.Add(pipex.SubmitRet, cs.id, 0, -1, cs.err)
+			if cs.err != nil {
+				out.achieved++
+			} else {
+				okAll++
+				if fc.class[cs.id] == pipex.Good {
+					okGood++
+				}
+			}
+		}
+		if out.fillProblem == "" {
+			for _, v := range fc.Victims {
+				subs[v].cancel()
+				if !poll(func() bool { return len(subs[v].done) > 0 }) {
+					out.fillProblem = fmt.Sprintf("cancelled Submit (position %d) did not return", v)
+					break
+				}
+				collect(subs[v])
+			}
+		}
+		gate.Release()
+		gateOpen = true
+		if out.fillProblem == "" {
+			r := pipex.Await(log, func() bool {
+				for _, cs := range subs {
+					if !cs.got && len(cs.done) == 0 {
+						return false
+					}
+				}
+				return true
+			}, 200*time.Millisecond, 30*time.Second)
+			for _, cs := range subs {
+				if !cs.got && len(cs.done) > 0 {
+					collect(cs)
+				}
+			}
+			switch r {
+			case "stalled":
+				out.progress = "stalled"
+				for _, cs := range subs {
+					if !cs.got {
+						out.blockedSubmit = cs.id
+						log.Add(pipex.SubmitRet, cs.id, 0, -1, fmt.Errorf("harness: Submit still blocked (stalled)"))
+					}
+				}
+			case "timeout":
+				out.fillProblem = "concurrent Submit calls did not return after the gate opened (watchdog)"
+			}
+		}
+		defer func() {
+			for _, cs := range subs {
+				cs.cancel()
+			}
+		}()
+	}
+	if fc.Conc == 0 && fc.F > 0 && out.fillProblem == "" {
 		if fc.Gate == "apply" || fc.Gate == "decode" {
 			// the pipeline must be at rest and full before the doomed calls
 			if !pipex.Settle(log, 4, 10*time.Second) {
@@ -401,6 +524,11 @@ func judge(c *core.Ctx, fc *fcase, out *outcome) {
 	c.Count("failed_submits_achieved", out.achieved)
 	c.Count("doomed_submit_seen_blocked_on_full_channel", out.blockedSeen)
 	c.Count("doomed_submit_went_through", out.notFull)
+	if fc.Conc > 0 {
+		c.Count("concurrent_cases", 1)
+		c.Count("concurrent_submitters_seen_parked_in_submit", out.concParked)
+		c.Count(fmt.Sprintf("concurrent_m%d", fc.Conc), 1)
+	}
 
 	firstFail := uint64(0)
 	minFailSeq, maxFailSeq := int64(-1), int64(-1)
@@ -428,7 +556,8 @@ func judge(c *core.Ctx, fc *fcase, out *outcome) {
 		if in.err != "" || in.subRet == 0 {
 			continue
 		}
-		after := firstFail != 0 && in.subCall > firstFail
+		// accepted afterwards: the call returned nil after the failed call had returned
+		after := firstFail != 0 && in.subRet > firstFail
 		if after && fc.class[id] == pipex.Good {
 			laterOK++
 		}
@@ -444,7 +573,10 @@ func judge(c *core.Ctx, fc *fcase, out *outcome) {
 		}
 	}
 	if out.achieved > 0 && laterOK > 0 {
-		c.Distinct(failedIDs[0], len(failedIDs), fc.Gate, fc.Buf, fc.DecodeW)
+		c.Distinct(failedIDs[0], len(failedIDs), fc.Gate, fc.Buf, fc.DecodeW, fc.Conc, fmt.Sprint(fc.Victims))
+		if fc.Conc > 0 {
+			c.Count("concurrent_cases_with_failure_and_later_success", 1)
+		}
 		if failedIDs[0] == fc.K {
 			c.Count("cases_failure_at_planned_position", 1)
 		}
@@ -477,6 +609,10 @@ func judge(c *core.Ctx, fc *fcase, out *outcome) {
 			"unapplied_after_failure": unappliedAfter, "unapplied_before_failure": unappliedBefore, "missing_results": missingResult,
 			"pending_count_at_rest": out.pendingCount, "goroutines_at_rest": out.dump, "blocked_background_submit": out.blockedSubmit, "sequence_number_by_id": seqs, "events": pipex.Strings(evs, 260)}
 	}
+	fam := ""
+	if fc.Conc > 0 {
+		fam = ":concurrent-submitters"
+	}
 	if out.progress == "ok" {
 		c.Count("cases_all_applied", 1)
 		if out.achieved > 0 {
@@ -492,11 +628,11 @@ func judge(c *core.Ctx, fc *fcase, out *outcome) {
 		case len(unappliedBefore) > 0:
 			c.Violation("C44:stall-before-failure", fmt.Sprintf("k=%d f=%d: blocks accepted before the failed Submit were never applied: ids %v", fc.K, fc.F, unappliedBefore), witness())
 		case len(unappliedAfter) > 0 && gap:
-			c.Violation("C44:sequence-gap", fmt.Sprintf("k=%d f=%d gate=%s: Submit of ids %v failed after taking sequence numbers %d..%d; every good block accepted before was applied, none of the %d accepted afterwards (ids %v): "+
+			c.Violation("C44:sequence-gap"+fam, fmt.Sprintf("k=%d f=%d gate=%s: Submit of ids %v failed after taking sequence numbers %d..%d; every good block accepted before was applied, none of the %d accepted afterwards (ids %v): "+
 				"the apply counter is frozen, all pipeline goroutines are parked, PendingCount()=%d, %d results never arrived",
 				fc.K, fc.F, fc.Gate, failedIDs, minFailSeq, maxFailSeq, len(unappliedAfter), unappliedAfter, out.pendingCount, len(missingResult)), witness())
 		case len(unappliedAfter) > 0:
-			c.Violation("C44:stall-after-failure", fmt.Sprintf("k=%d f=%d: blocks accepted after the failed Submit were never applied: ids %v (PendingCount=%d)", fc.K, fc.F, unappliedAfter, out.pendingCount), witness())
+			c.Violation("C44:stall-after-failure"+fam, fmt.Sprintf("k=%d f=%d: blocks accepted after the failed Submit were never applied: ids %v (PendingCount=%d)", fc.K, fc.F, unappliedAfter, out.pendingCount), witness())
 		}
 	}
 	if c.SampleN() < 6 && fc.Idx%7 == 0 {
@@ -511,25 +647,46 @@ func run(c *core.Ctx) {
 		c.Inconclusive("block factory: " + err.Error())
 		return
 	}
-	type kf struct{ k, f, buf, dw int }
+	type kf struct {
+		k, f, buf, dw int
+		conc          int
+		victims       []int
+	}
 	var list []kf
 	if c.Quick() {
 		for k := 0; k < seqLen; k += 3 {
 			for fl := 1; fl <= 3; fl++ {
-				list = append(list, kf{k, fl, 1 + (k/3)%2, 1 + (k/3+fl)%2})
+				list = append(list, kf{k: k, f: fl, buf: 1 + (k/3)%2, dw: 1 + (k/3+fl)%2})
 			}
 		}
-		list = append(list, kf{10, 0, 1, 1}, kf{20, 0, 2, 2})
+		list = append(list, kf{k: 10, f: 0, buf: 1, dw: 1}, kf{k: 20, f: 0, buf: 2, dw: 2})
 	} else {
 		for k := 0; k < seqLen; k++ {
 			for fl := 1; fl <= 3; fl++ {
 				for buf := 1; buf <= 2; buf++ {
-					list = append(list, kf{k, fl, buf, 1 + (k+fl+buf)%2})
+					list = append(list, kf{k: k, f: fl, buf: buf, dw: 1 + (k+fl+buf)%2})
 				}
 			}
 		}
 		for k := 0; k < seqLen; k += 5 {
-			list = append(list, kf{k, 0, 1 + k%2, 1 + (k/5)%2})
+			list = append(list, kf{k: k, f: 0, buf: 1 + k%2, dw: 1 + (k/5)%2})
+		}
+	}
+	// concurrent-submitter family: m goroutines blocked in Submit, every position (and a few pairs) cancelled
+	vsets := map[int][][]int{
+		2: {{0}, {1}},
+		3: {{0}, {1}, {2}, {0, 1}, {1, 0}},
+		4: {{0}, {1}, {2}, {3}, {0, 2}, {2, 1}},
+	}
+	kb := [][2]int{{6, 1}, {13, 2}}
+	if c.Thorough() {
+		kb = [][2]int{{4, 1}, {6, 1}, {9, 1}, {20, 1}, {6, 2}, {13, 2}, {22, 2}}
+	}
+	for _, e := range kb {
+		for m := 2; m <= 4; m++ {
+			for _, vs := range vsets[m] {
+				list = append(list, kf{k: e[0], buf: e[1], dw: 1, conc: m, victims: vs})
+			}
 		}
 	}
 	if c.Thorough() {
@@ -539,10 +696,11 @@ func run(c *core.Ctx) {
 	}
 	planned, achievedAll := 0, true
 	for i, e := range list {
-		r := c.Rand("case", e.k, e.f, e.buf, e.dw)
-		fc := &fcase{Idx: i, K: e.k, F: e.f, Buf: e.buf, DecodeW: e.dw}
+		r := c.Rand("case", e.k, e.f, e.buf, e.dw, e.conc, fmt.Sprint(e.victims))
+		fc := &fcase{Idx: i, K: e.k, F: e.f, Buf: e.buf, DecodeW: e.dw, Conc: e.conc, Victims: e.victims}
 		fc.Gate = "apply"
 		switch {
+		case e.conc > 0:
 		case e.f == 0:
 			fc.Gate = "none"
 		case e.k < 2:
@@ -562,7 +720,7 @@ func run(c *core.Ctx) {
 				fc.blk[id] = f.Good[r.Intn(4)]
 			}
 			lo := fc.K - fc.capacity()
-			if (fc.F > 0 && id >= lo-1 && id < fc.K+fc.F) || id == seqLen-1 {
+			if ((fc.F > 0 || fc.Conc > 0) && id >= lo-1 && id < fc.K+fc.F+fc.Conc) || id == seqLen-1 {
 				// the blocks that fill the pipeline and the doomed ones are good blocks
 				fc.blk[id] = f.Good[r.Intn(4)]
 			}
@@ -573,11 +731,11 @@ func run(c *core.Ctx) {
 				fc.BadIDs = append(fc.BadIDs, id)
 			}
 		}
-		c.Journal("C44 case %d k=%d f=%d gate=%s buf=%d dw=%d", i, fc.K, fc.F, fc.Gate, fc.Buf, fc.DecodeW)
+		c.Journal("C44 case %d k=%d f=%d gate=%s buf=%d dw=%d conc=%d victims=%v", i, fc.K, fc.F, fc.Gate, fc.Buf, fc.DecodeW, fc.Conc, fc.Victims)
 		out := execute(fc)
 		c.Eval()
 		judge(c, fc, out)
-		if e.f > 0 && e.k+e.f < seqLen {
+		if (e.f > 0 || e.conc > 0) && e.k+e.f < seqLen {
 			planned++
 			if out.achieved == 0 {
 				achievedAll = false
